@@ -143,6 +143,23 @@ pub fn compress_sweep(ctx: &Ctx, rep: &mut Report) {
         for l in [fit, fit.saturating_sub(1), fit + 1, fit + 4096, 8192, 16384] {
             check_compress(&v, l, rep);
         }
+        // the decoder on large strings: the valid encoding with single-bit flips at random
+        // places, a set padding bit, and one byte cut off
+        if let Some(x) = spec::compress(&v, fit + 1) {
+            for _ in 0..24 {
+                let mut y = x.clone();
+                let i = rng.gen_range(0..y.len() * 8);
+                y[i / 8] ^= 128 >> (i % 8);
+                check_decompress(&y, n, rep);
+            }
+            let mut y = x.clone();
+            let last = y.len() - 1;
+            y[last] |= 1;
+            check_decompress(&y, n, rep);
+            check_decompress(&x[..x.len() - 1], n, rep);
+            check_decompress(&x, n, rep);
+            rep.count("large_strings_decoded", 27);
+        }
         rep.count("large_encodings", 1);
         for t in [1usize << 15, 1 << 16, 1 << 17] {
             if bits >= t {
